@@ -20,7 +20,7 @@ except Exception:  # pragma: no cover
 
 META = {
     "technique": "Lean 4 proof over the scalar-polymorphic model of one_step (exact update forms, reversibility by induction, linear/angular momentum conservation, harmonic shadow invariant, unit-constant identities from regenerated constants) + <= 4 ulp step correspondence with recorded real forces + reversal / dt-halving / conservation probes",
-    "level_text": "Theorems (any number of atoms, any dt, any force field): x' = x + v dt + a dt^2/2, v' = v + (a+a') dt/2; a step, velocity reversal, a step, reversal returns the initial state exactly (n steps by induction); linear (angular) momentum is conserved when the net force (torque) vanishes; the harmonic shadow energy is conserved exactly (second-order, no drift); ACC_SCALE*KINETIC_ENERGY_SCALE = 1 and VEL_SCALE^2*KES*TS = 1 within 1e-9 for the constants regenerated from the code. Tied to the code by feeding the forces recorded from the real engine through the compiled Float model (positions, velocities, accelerations within 4 ulp; Ek/T within 1e-12) and by reversal, dt-halving, momentum and bookkeeping probes on real trajectories. Round 2 (C08b, C10b): N-dimensional harmonic shadow energy conserved exactly for every symmetric stiffness matrix and step; the energy error equals dt^2/4 (q(x_n) - q(x_0)) for all n (no secular drift) with a uniform bound under the stability condition; local error of one step <= C |w dt|^3 against the exact cos/sin flow; symplecticity; the thermo row written for a step is that of the stored phase point (value-level output model).",
+    "level_text": "Theorems (any number of atoms, any dt, any force field): x' = x + v dt + a dt^2/2, v' = v + (a+a') dt/2; a step, velocity reversal, a step, reversal returns the initial state exactly (n steps by induction); linear (angular) momentum is conserved when the net force (torque) vanishes; the harmonic shadow energy is conserved exactly (second-order, no drift); ACC_SCALE*KINETIC_ENERGY_SCALE = 1 and VEL_SCALE^2*KES*TS = 1 within 1e-9 for the constants regenerated from the code. Tied to the code by feeding the forces recorded from the real engine through the compiled Float model (positions, velocities, accelerations within 4 ulp; Ek/T within 1e-12) and by reversal, dt-halving, momentum and bookkeeping probes on real trajectories. Round 2 (C08b, C10b): N-dimensional harmonic shadow energy conserved exactly for every symmetric stiffness matrix and step; the energy error equals dt^2/4 (q(x_n) - q(x_0)) for all n (no secular drift) with a uniform bound under the stability condition; local error of one step <= C |w dt|^3 against the exact cos/sin flow; symplecticity; the thermo row written for a step is that of the stored phase point (value-level output model). Translator tie: the phase-space statements of one_step as they stand in the source are the model's vvStep (StepTie.basic_is_vvStep, rfl); kinetic energy summand / reduction axes / factor, temperature and set_dof are the model's (ThermoTie).",
     "level_note": "Trusted: Lean kernel; harness; Float<->Real gap measured by the <=4 ulp correspondence. Partial: global second order for arbitrary smooth forces is standard numerical analysis, validated by the dt-halving ratio, not proved. Known finding F2 (angular momentum lost for axis-aligned bonds) is shared with C02.",
     "design_ref": "DESIGN.md section 5 C08",
 }
